@@ -8,5 +8,5 @@ cp -f /repo/Cargo.lock harness/Cargo.lock
 cp -f /repo/rust-toolchain.toml harness/rust-toolchain.toml
 (cd harness && cargo build --offline)
 ./harness/target/debug/extract /repo lean/TypifyModel/Generated
-(cd lean && lake build TypifyModel drv)
+(cd lean && lake build TypifyModel $(grep -o 'name = "drv_[a-z0-9_]*"' lakefile.toml | cut -d'"' -f2))
 echo setup-ok
